@@ -3,7 +3,7 @@
 (* step (verify in memory, serialise, parse back, verify again, countersign,    *)
 (* verify the countersignature standalone / nested / over the decoded parent)   *)
 (* must succeed.                                                                *)
-EXTENDS CoseSystem, Json
+EXTENDS CoseSystem, Json, TraceKit
 Tr == ndJsonDeserialize("tr.ndjson")
 VARIABLE l
 
@@ -21,9 +21,9 @@ Fails(e) ==
   IF e.obs[k0].res # "ok" THEN (IF e.obs[k0].res = "panic" THEN {"panic"} ELSE {})
   ELSE { Reason(e.obs[k], k) : k \in { j \in (k0 + 1)..Len(e.obs) : e.obs[j].res # "ok" } }
 
-TInit == l = 1
+TInit == l = 1 /\ KitInit
 TNext == /\ l <= Len(Tr) /\ l' = l + 1
-         /\ LET f == Fails(Tr[l]) IN f = {} \/ PrintT(<<"REJECT", l, f>>)
+         /\ Note(l, Fails(Tr[l]))
 TSpec == TInit /\ [][TNext]_l
-Accepted == TLCGet("stats").diameter - 1 = Len(Tr)
+Accepted == KitDone(Len(Tr))
 =============================================================================
